@@ -172,6 +172,7 @@ Proof.
   destruct wss as [|ws0 r]; [discriminate|]. remember (ws0 :: r) as wss.
   assert (Hne : map encode wss <> []) by (subst; discriminate).
   destruct (map encode wss) as [|p ps] eqn:Em; [congruence|]. rewrite <- Em in Hv.
+  destruct budgets as [|b0 br]; [discriminate|]. remember (b0 :: br) as budgets.
   assert (Hwf : Forall (Forall wf_w) wss).
   { eapply Forall_impl; [|exact Hall]. intros ws (Ht & Hp). eapply true_frame_wf; eassumption. }
   destruct (validate_loop 0 (map encode wss) budgets (zlen full) []) as [c|cs] eqn:E;
@@ -344,13 +345,15 @@ Qed.
     CRYPTO frames (the strict reader parses it) whose CRYPTO frames cover every byte of the
     stream with data that is really present in the payload. *)
 Lemma validate_sound ps budgets n :
+  budgets <> [] ->
   Forall (fun p => bytes_ok p /\ zlen p <= 2 ^ 48) ps ->
   validate ps budgets n <> -1 /\
   (validate ps budgets n = 0 ->
    exists wss, Forall2 (fun p ws => strict_frames (S (length p)) p = Some ws) ps wss /\
      forall j, 0 <= j < n -> exists ws o d, In ws wss /\ In (o, d) (wcryptos ws) /\ o <= j < o + zlen d).
 Proof.
-  intros Hall. unfold validate. destruct ps as [|p0 r]; [split; [lia|discriminate]|].
+  intros Hbud Hall. unfold validate. destruct ps as [|p0 r]; [split; [lia|discriminate]|].
+  destruct budgets as [|b0 br]; [congruence|]. remember (b0 :: br) as budgets.
   pose proof (validate_loop_strict (p0 :: r) 0 budgets n [] Hall) as Hl.
   destruct (validate_loop 0 (p0 :: r) budgets n []) as [c|cs].
   - split; [lia|]. intros ->. lia.
@@ -374,3 +377,61 @@ Lemma validate_rejects_former_witnesses :
   validate [[64; 6; 0; 20] ++ repeat 65 20] [0] 20 = 3 /\
   validate [[6; 0; 224; 0; 0; 0; 0; 0; 0; 0]] [0] 20 = 3.
 Proof. repeat split; vm_compute; reflexivity. Qed.
+
+(* ---------- the in-tree flight builders cannot make validateInitialFlight panic ---------- *)
+Lemma chd_encode_nopanic ws : Forall wf_w ws ->
+  forall fuel k, chd_frames fuel (repeat 0 k ++ encode ws) <> ChdPanic.
+Proof.
+  induction ws as [|w r IH]; intros Hwf fuel k.
+  - unfold encode. simpl. rewrite app_nil_r. destruct k as [|k].
+    + destruct fuel; simpl; discriminate.
+    + destruct fuel as [|f]; [discriminate|].
+      replace (repeat 0 (S k)) with (repeat 0 (S k) ++ []) by apply app_nil_r. rewrite chd_strip.
+      destruct f; simpl; discriminate.
+  - inversion Hwf as [|? ? Hw Hr]; subst. unfold encode in *. cbn [map concat].
+    destruct w as [|n|o d].
+    + cbn [enc_w app]. destruct (chd_strip_eq fuel k 1 (concat (map enc_w r)) ltac:(discriminate)) as (f' & ->).
+      destruct f' as [|f]; [discriminate|]. cbn [chd_frames chd_vli].
+      change (1 / 64) with 0. change (2 ^ 0 - 1 =? 0) with true. cbv iota.
+      change (1 mod 64 =? 0) with false. change (1 mod 64 =? 1) with true. cbv iota.
+      apply (IH Hr f 0%nat).
+    + cbn [enc_w]. unfold zeros. rewrite app_assoc. rewrite <- repeat_app. apply (IH Hr).
+    + destruct Hw as (Ho & Hd). cbn [enc_w app]. rewrite <- !app_assoc.
+      destruct (chd_strip_eq fuel k 6 (vappend o ++ vappend (zlen d) ++ d ++ concat (map enc_w r)) ltac:(discriminate)) as (f' & ->).
+      destruct f' as [|f]; [discriminate|]. cbn [chd_frames].
+      assert (E6 : forall x, chd_vli (6 :: x) = Some (6, x)) by (intros x; reflexivity). rewrite E6.
+      change (6 =? 0) with false. change (6 =? 1) with false. change (6 =? 6) with true. cbv iota.
+      rewrite chd_vli_vappend by (unfold vwf; lia).
+      pose proof (zlen_nonneg d) as Hd0.
+      rewrite chd_vli_vappend by (unfold vwf, maxVarInt8; lia).
+      destruct (Z.ltb_spec (2 ^ 48) (zlen d)); [lia|].
+      destruct (d ++ concat (map enc_w r)) as [|z zs] eqn:Ed; [discriminate|]. rewrite <- Ed.
+      rewrite drop_app_exact. pose proof (IH Hr f 0%nat) as Hrec. simpl app in Hrec.
+      destruct (chd_frames f (concat (map enc_w r))); [discriminate|discriminate|congruence].
+Qed.
+
+Lemma validate_loop_nopanic wss : forall i budgets n acc,
+  Forall (Forall wf_w) wss -> validate_loop i (map encode wss) budgets n acc <> inl (-1).
+Proof.
+  induction wss as [|ws r IH]; intros i budgets n acc Hwf; cbn [validate_loop map]; [discriminate|].
+  inversion Hwf as [|? ? Hw Hr]; subst.
+  destruct ((0 <? _) && (_ <? zlen (encode ws))); [discriminate|].
+  destruct (negb (strict_ok (encode ws))); [discriminate|].
+  pose proof (chd_encode_nopanic ws Hw (S (length (encode ws))) 0%nat) as Hc. simpl app in Hc.
+  destruct (chd_frames (S (length (encode ws))) (encode ws)) as [cs0| |]; [|discriminate|congruence].
+  destruct (existsb _ cs0); [discriminate|]. apply IH. assumption.
+Qed.
+
+Lemma validate_builder_nopanic wss full budgets :
+  budgets <> [] -> zlen full <= 2 ^ 48 ->
+  Forall (fun ws => Forall (true_frame full) (wcryptos ws) /\ wpads_ok ws) wss ->
+  validate (map encode wss) budgets (zlen full) <> -1.
+Proof.
+  intros Hb Hn Hall. unfold validate. destruct (map encode wss) as [|p ps] eqn:Em; [lia|].
+  destruct budgets as [|b0 br]; [congruence|]. rewrite <- Em.
+  assert (Hwf : Forall (Forall wf_w) wss).
+  { eapply Forall_impl; [|exact Hall]. intros ws (Ht & Hp). eapply true_frame_wf; eassumption. }
+  pose proof (validate_loop_nopanic wss 0 (b0 :: br) (zlen full) [] Hwf) as Hl.
+  destruct (validate_loop 0 (map encode wss) (b0 :: br) (zlen full) []) as [c|cs]; [congruence|].
+  destruct (forallb _ _); lia.
+Qed.
